@@ -63,7 +63,7 @@ func runC11(r *mc.Run) {
 			lpos := c.Choose("level-position", 4)
 			svn1 := c.Choose("tee-svn1", 3)
 			qmask := c.Choose("qe-masks", 3)
-			crl := c.Choose("crl-contents", 4)
+			crl := c.Choose("crl-contents", 6)
 			tm := c.Choose("times", 3)
 			pool := c.Choose("pool", 3)
 			li := c.Free("level", 3)
@@ -261,6 +261,28 @@ func runC11(r *mc.Run) {
 				for i := 0; i < 200; i++ {
 					pckRev = append(pckRev, big.NewInt(int64(5000+i)))
 					rootRev = append(rootRev, big.NewInt(int64(9000+i)))
+				}
+			case 4: // other certificates' serials that agree with the chain's in their low 64 / 32 / 8 bits
+				up := func(v *big.Int, bit uint) *big.Int { return new(big.Int).Add(v, new(big.Int).Lsh(big.NewInt(1), bit)) }
+				tcbSN := w.PKI.Tcb.SerialNumber
+				pckRev = []*big.Int{up(leafSN, 64), up(leafSN, 32), up(leafSN, 8), up(leafSN, 152)}
+				rootRev = []*big.Int{up(interSN, 64), up(tcbSN, 64), up(interSN, 32), up(tcbSN, 32), up(tcbSN, 8), up(tcbSN, 152)}
+			case 5: // serials that extend / shorten the chain's by whole octets (prefixes and suffixes of the hex text)
+				tcbSN := w.PKI.Tcb.SerialNumber
+				sh := func(v *big.Int) []*big.Int {
+					return []*big.Int{new(big.Int).Lsh(v, 8), new(big.Int).Add(new(big.Int).Lsh(v, 8), big.NewInt(1)), new(big.Int).Add(new(big.Int).Rsh(v, 8), big.NewInt(0))}
+				}
+				for _, x := range sh(leafSN) {
+					if x.Cmp(leafSN) != 0 && x.BitLen() <= 159 {
+						pckRev = append(pckRev, x)
+					}
+				}
+				for _, v := range []*big.Int{interSN, tcbSN} {
+					for _, x := range sh(v) {
+						if x.Cmp(interSN) != 0 && x.Cmp(tcbSN) != 0 && x.BitLen() <= 159 {
+							rootRev = append(rootRev, x)
+						}
+					}
 				}
 			}
 			w.PckCrl = world.MakeCRL(world.CRLSpec{Issuer: w.PKI.Inter, Signer: w.PKI.InterKey, Revoked: pckRev})
